@@ -437,6 +437,12 @@ class Writer:
             return self.W(e.value, role, seen)
         if isinstance(e, (ast.ListComp, ast.GeneratorExp)):
             return set().union(*[self.W(g.iter, role, seen) for g in e.generators])
+        if isinstance(e, ast.Dict):
+            return set().union(*[self.W(x, role, seen) for x in list(e.keys) + list(e.values) if x is not None]) if e.keys else set()
+        if isinstance(e, ast.Compare) and len(e.ops) == 1 and isinstance(e.ops[0], (ast.In, ast.NotIn)) \
+                and isinstance(e.comparators[0], ast.Name) and e.comparators[0].id not in self.recvars:
+            # `key in table`: the same look-up as table[key]
+            return self.W(e.left, role or ':ref', seen)
         if isinstance(e, (ast.BinOp, ast.UnaryOp, ast.BoolOp, ast.Compare, ast.IfExp, ast.Tuple, ast.List)):
             if isinstance(e, ast.BinOp) and isinstance(e.op, (ast.BitAnd, ast.Mod)):
                 self.masked.append(f'{self.fn.name}:{e.lineno}: {ast.unparse(e)[:60]}')
